@@ -25,6 +25,7 @@ NOISE_FLOOR = 200000          # instructions; below this the count is dominated 
 DEGREE_LIMIT = 5.5
 SHORT_INPUT_LEN = 48
 SHORT_INPUT_CAP = 50000000
+STALL_CPU_S = 10.0            # CPU seconds; a <= 64-character input needing more than this natively has stalled the caller
 
 
 # ---------------------------------------------------------------------------
@@ -144,12 +145,37 @@ def make_callable(target, targets):
         def run(s):
             try:
                 fn(s)
+            except Stall:
+                raise
             except Exception:
                 pass
         return run
     pat = re.compile(target["pattern"], target.get("flags", 0))
     m = getattr(pat, target.get("method", "match"))
     return m
+
+
+class Stall(Exception):
+    pass
+
+
+def _on_vtalrm(sig, frm):
+    raise Stall()
+
+
+def guarded(fn, s, cpu_s):
+    """Runs fn(s) under a CPU-time (ITIMER_VIRTUAL) limit; returns True when it had to be interrupted.
+    CPython's regex engine polls for signals, so a runaway match is interruptible."""
+    import signal
+    signal.signal(signal.SIGVTALRM, _on_vtalrm)
+    signal.setitimer(signal.ITIMER_VIRTUAL, cpu_s)
+    try:
+        fn(s)
+        return False
+    except Stall:
+        return True
+    finally:
+        signal.setitimer(signal.ITIMER_VIRTUAL, 0)
 
 
 def family_input(fam, n):
@@ -175,12 +201,18 @@ def do_harvest(spec, out):
     samples = ["f", "rhel-7", "1.0", "Rawhide", "ga", "updates-testing", "f-23", "rhel-7.1-updates@rhel-7-ga", "glibc-0:2.17-55.el7.x86_64",
                "dir/glibc-2.17-55.el7.x86_64.rpm", "nodejs:10:8010020190612143724:6c81f848", "RC-1.0", "Beta-1.2", "F-22-20150522.n.0",
                "20150522", "1.2", "Server", "a" * 32, "!", "", "1..2"]
+    stalls = []
     for name, fn in sorted(targets.items()):
         for s in samples:
-            try:
-                fn(s)
-            except Exception:
-                pass
+            def call(x, fn=fn):
+                try:
+                    fn(x)
+                except Stall:
+                    raise
+                except Exception:
+                    pass
+            if guarded(call, s, STALL_CPU_S):
+                stalls.append({"target": {"kind": "callable", "name": name}, "input": s, "cpu_s": STALL_CPU_S})
     from rv import formats
     import random
     rng = random.Random(5)
@@ -217,7 +249,7 @@ def do_harvest(spec, out):
     hv.scan_compiled()
     pats = [{"pattern": p, "flags": fl, "where": sorted(w)} for (p, fl), w in sorted(hv.patterns.items())]
     with open(out, "w") as f:
-        json.dump({"events": hv.events, "patterns": pats, "targets": sorted(targets)}, f)
+        json.dump({"events": hv.events, "patterns": pats, "targets": sorted(targets), "stalls": stalls}, f)
     return 0
 
 
@@ -230,6 +262,7 @@ def do_prescreen(spec, out):
     targets = build_targets()
     limit_ns = int(spec.get("limit_ns", 2000000))
     res = []
+    stalls = []
     t_end = time.time() + float(spec.get("budget_s", 60))
     done = 0
     for fam in spec["families"]:
@@ -244,7 +277,8 @@ def do_prescreen(spec, out):
             best = None
             for rep in range(2):
                 t0 = time.perf_counter_ns()
-                fn(s)
+                if guarded(fn, s, STALL_CPU_S):
+                    stalls.append({"id": fam["id"], "input": s, "cpu_s": STALL_CPU_S})
                 dt = time.perf_counter_ns() - t0
                 best = dt if best is None or dt < best else best
                 if dt > limit_ns:
@@ -264,7 +298,7 @@ def do_prescreen(spec, out):
         if sus > 5.0:
             res.append({"id": fam["id"], "suspicion": round(sus, 2), "times_ns": times})
     with open(out, "w") as f:
-        json.dump({"screened": done, "of": len(spec["families"]), "candidates": res}, f)
+        json.dump({"screened": done, "of": len(spec["families"]), "candidates": res, "stalls": stalls}, f)
     return 0
 
 
